@@ -1482,6 +1482,15 @@ func (x *Exec) anchorName(ins ssa.Instruction, full string) string {
 func (x *Exec) genericCall(st *State, ins ssa.Instruction, full string, fn *ssa.Function, args []Value, cont func(*State, Value)) bool {
 	switch full {
 	case "slices.IndexFunc", "slices.ContainsFunc":
+	case "slices.Clone":
+		// a fresh slice with the same elements: append(S(nil), s...) (nil stays nil in Go; the model's nil has length 0
+		// and the fresh copy of an empty slice is indistinguishable by length and contents)
+		s := args[0]
+		if _, ok := types.Unalias(s.Typ).Underlying().(*types.Slice); !ok {
+			return false
+		}
+		cont(st, x.appendOp(st, ins, x.mk(x.TM.Zero(s.Typ), s.Typ), s, nil))
+		return true
 	case "slices.Contains", "slices.Index":
 		// first index holding a value equal to the argument (Go's == on the element type), or -1
 		s, e := args[0], args[1]
